@@ -236,8 +236,9 @@ class BaseFileLock(abc.ABC):
             except:  # noqa
                 _logger.exception("Failed to release lock %s on %s", lid, fn)
             else:
-                self._lock_counter = 0
                 _logger.info('Lock %s released on %s', lid, fn)
+            # The descriptor is gone either way, keep the counter in sync
+            self._lock_counter = 0
 
         try:
             for _ in range(max(levels, 1)):
